@@ -489,6 +489,35 @@ exec_req(const vcase *vc)
 				C.rcv_pending = false;
 			}
 			req_after_settle(W);
+		} else if (n == "nbsend") {
+			// round 7: a request REFUSED at submission (zero timeout while no connection exists): the message stays with the
+			// caller, whatever the context was doing is abandoned, and the context is idle - a receive must fail with NNG_ESTATE
+			if (npeers(W) != 0 || W.jammed || C.snd_pending || C.rcv_pending)
+				continue;
+			uint32_t tag = ((uint32_t) k << 24) | ++W.seq;
+			nng_msg *m   = h_msg(tag, 0);
+			AioBox   b;
+			H_OK(nng_aio_alloc(&b.aio, box_cb, &b));
+			nng_aio_set_timeout(b.aio, 0);
+			nng_aio_set_msg(b.aio, m);
+			if (k == 0)
+				nng_socket_send(W.s, b.aio);
+			else
+				nng_ctx_send(C.ctx, b.aio);
+			nng_aio_wait(b.aio);
+			int rv        = nng_aio_result(b.aio);
+			W.subm[tag]   = W.nsubm++; // (the refused submission drew a request id as well)
+			nng_msg *back = nng_aio_get_msg(b.aio);
+			VR_CHECK(rv == NNG_ETIMEDOUT, "C04:refused-send-result", "zero-timeout request with no connection on context %d -> %d, expected NNG_ETIMEDOUT", k, rv);
+			VR_CHECK(back == m && at_is_live(m), "C04:failed-send-lost-message", "refused send did not leave its message with the caller");
+			nng_msg_free(m);
+			nng_aio_free(b.aio);
+			if (C.id)
+				C.prev_id = C.id;
+			C.id = 0;
+			C.st = IDLE;
+			vr_tag("refused_send");
+			vs_settle();
 		} else if (n == "recv") { // non-blocking receive
 			if (C.rcv_pending) {
 				// second concurrent receive must fail with ESTATE and leave the first alone
@@ -667,8 +696,11 @@ genReqOp()
 	return gen::exec([]() {
 		std::ostringstream o;
 		int k = *gen::weightedElement<int>({{4, 0}, {3, 1}, {2, 2}, {1, 3}});
-		int t = *gen::weightedElement<int>({{10, 0}, {12, 1}, {6, 2}, {4, 3}, {3, 4}, {3, 5}, {1, 6}, {3, 7}, {2, 8}, {1, 9}, {1, 10}});
+		int t = *gen::weightedElement<int>({{10, 0}, {12, 1}, {6, 2}, {4, 3}, {3, 4}, {3, 5}, {1, 6}, {3, 7}, {2, 8}, {1, 9}, {1, 10}, {2, 11}});
 		switch (t) {
+		case 11: // a refused request (possibly while another one is outstanding or answered), then a receive
+			o << "detach 0\ndetach 1\nnbsend " << k << "\n" << (*pbt::range<int>(0, 1) ? "recv " : "arecv ") << k;
+			break;
 		case 0: o << "send " << k; break;
 		case 1: o << "reply " << *pbt::range<int>(0, 1) << " " << *gen::weightedElement<int>({{8, 0}, {4, 1}, {2, 2}, {2, 3}, {2, 4}, {1, 5}, {3, 6}, {5, 7}, {5, 8}}) << " " << k; break;
 		case 2: o << "recv " << k; break;
